@@ -128,7 +128,15 @@ TrUnmarshal ==
 TrDatagram ==
   /\ e.op = "datagram"
   /\ LET res == DecRes(e)
-         G(D) == DatagramGuard(D, e.b, res) IN
+         \* C06 locality: when every part is a complete frame, the result is the
+         \* concatenation of the parts' own results, or an error if any part failed
+         ps == e.parts
+         X == IF ps = << >> \/ res.panic \/ (\E i \in 1..Len(ps) : ~Framed(buf[ps[i]])) THEN {}
+              ELSE IF \A i \in 1..Len(ps) : pk[ps[i]].k = "LIST"
+                   THEN (IF ~res.ok THEN {"C06:not_local_rejected"}
+                         ELSE IF res.out # FlatSeq([i \in 1..Len(ps) |-> pk[ps[i]].pkts]) THEN {"C06:not_local"} ELSE {})
+                   ELSE (IF res.ok THEN {"C06:not_all_or_nothing"} ELSE {})
+         G(D) == DatagramGuard(D, e.b, res) \cup X IN
      /\ pk' = [pk EXCEPT ![e.h] = IF res.ok THEN [k |-> "LIST", pkts |-> res.out] ELSE None]
      /\ memo' = [memo EXCEPT ![e.h] = NoMemo] /\ UNCHANGED << buf, prov, provdec >>
      /\ fromdec' = IF res.ok THEN fromdec \cup {e.h} ELSE fromdec \ {e.h}
